@@ -1061,12 +1061,13 @@ func (fc *FnCtx) entryHeapFacts(v Val) string {
 			continue
 		}
 		t := v.L[i]
-		// (select |name@<entry>| ref)
+		// (select |name@<entry>| addr): an object that already existed at entry cannot point to a newer object
 		if strings.HasPrefix(t, "(select |") {
 			rest := t[len("(select "):]
 			end := strings.Index(rest[1:], "|")
 			if end > 0 && strings.HasSuffix(rest[:end+2], suffix) {
-				facts = append(facts, app("bvult", t, "allocbase"))
+				addr := strings.TrimSuffix(strings.TrimSpace(rest[end+2:]), ")")
+				facts = append(facts, implies(app("bvult", addr, "allocbase"), app("bvult", t, "allocbase")))
 			}
 		}
 	}
